@@ -51,8 +51,13 @@ def variant(path, fn, name):
     new = name + "_rn"
     changed = 0
     for i in range(l0 - 1, l1):
-        ln, k = pat.subn(new, lines[i])
-        lines[i] = ln
+        # leave string literals alone (renaming inside them would change behaviour)
+        segs = lines[i].split('"')
+        k = 0
+        for j in range(0, len(segs), 2):
+            segs[j], kk = pat.subn(new, segs[j])
+            k += kk
+        lines[i] = '"'.join(segs)
         changed += k
     return "\n".join(lines), changed
 
